@@ -32,6 +32,8 @@ class Ctx:
     # ----------------------------------------------------------------- rules
     def rule(self, rid: str, text: str, floor: int = 1, style: str = ''):
         """Declare a rule: its text and the minimum number of instances it must find."""
+        if rid in self.rules:
+            raise AnalysisError(f'rule id {rid} declared twice')
         self.rules[rid] = {'text': text, 'style': style, 'n': 0, 'bad': 0, 'constructs': set()}
         self.floors[rid] = floor
 
